@@ -972,7 +972,11 @@ func keptHandle(script string) string {
 	return ""
 }
 
-var keyPool = []string{"k", "level", "名前", "a.b", "<&>", "", "ключ", "k2", "x y"}
+// user keys: plain, unicode, empty / blank-ish, and keys that merely LOOK reserved (leading underscore,
+// other case, reserved name plus a suffix).  The reserved names themselves (`_ServerId`, `_NetId`) are
+// outside the guard and only written in the unguarded stream.
+var keyPool = []string{"k", "level", "名前", "a.b", "<&>", "", "ключ", "k2", "x y",
+	"_", "_x", "__", "_zone", "_id", "_Id", "_NetId2", "_serverid", "_ID_", " ", "\u00a0", "é", "_名"}
 
 func (g *gen) key() string {
 	r := g.h.R
